@@ -481,6 +481,54 @@ theorem caller_completes_parent_partial (s0 : St) (h0 : T46Init s0) (hi : W6Init
   | none => rw [hp] at hpar; cases hpar
   | some p => exact ⟨hmem, hroot, src, p, hsrc, rfl, hrest p hp⟩
 
+/-- **wait/exc tasks come only from the temporary handlers**, WITHOUT the side condition of
+    `wait_exc_tasks_only_from_handlers_partial` (sessions guarded by the two restrictions of the task accounting).  A task that is
+    new in a task set after a step and whose generator is a `TimeoutError` carrier of `w` was registered by `w`'s own `_on_tick`
+    closure at countdown 0 - whether or not it has a parent: the other registration sites (`_dispatcher` for a generator returned
+    by a handler, `StopIteration` / a plain yield re-registering the caller) only ever register generators that are not carriers
+    (`tasks_well_formed_partial` of C04: the parent of a task, the caller of a wait state and a handler's generator are user
+    generators, and the kind of a generator never changes). -/
+theorem wait_exc_tasks_only_from_handlers (s0 : St) (h0 : T46Init s0) (hi : W6InitWait s0) (hq : T46InitQ s0) (c : Cfg)
+    (h : T46ReachM2 s0 c) (x : Nat) (t' : Task)
+    (hnew : t' ∈ ((step c).st.comp x).tasks) (hold : t' ∉ (c.st.comp x).tasks) :
+    (∀ w, (step c).st.gen t'.g = .wait w →
+      ∃ r hh e k, c.stack = .invoke r hh e :: k ∧ c.exn = none ∧ (c.st.handler hh).kind = .waitDone w ∧
+        t' = ⟨(c.st.wait w).taskEvent, (c.st.wait w).task, some (c.st.wait w).parentGen⟩) ∧
+    (∀ w b, (step c).st.gen t'.g = .exc w b →
+      ∃ r hh e k, c.stack = .invoke r hh e :: k ∧ c.exn = none ∧ (c.st.handler hh).kind = .waitTick w ∧
+        (c.st.wait w).timeout = 0 ∧ b = false ∧
+        t' = ⟨(c.st.wait w).taskEvent, c.st.gens.length, some (c.st.wait w).parentGen⟩) := by
+  obtain ⟨p1, p2⟩ := wait_exc_tasks_only_from_handlers_partial s0 hi c h.admissible x t' hnew hold
+  refine ⟨p1, fun w b hg => ?_⟩
+  by_cases hpar : t'.parent = none
+  · exfalso
+    obtain ⟨_, hinv, htp⟩ := h.all h0 hi hq
+    have hK := t46_step_K hinv htp (h.admissible.cinv hi) (t46_reach_rq hq _ h.admissible.reach)
+    have hno : ∀ g, c.st.t46_nc g → t'.g = g → False := by
+      intro g hnc hgeq
+      have := (hnc.mono hK).2
+      rw [← hgeq, hg] at this
+      cases this
+    obtain ⟨_, hc⟩ := w6b_new_task_cases c x t' hnew hold
+    unfold W6BNewTask at hc
+    rcases hc with ⟨r, e, rest, err, g, k, hs, rfl⟩ | ⟨r, t, k, p, hs, hp, rfl⟩ | ⟨r, t, p, k, hs, rfl⟩ |
+      ⟨r, t, p, k, hs, rfl, _⟩ | ⟨r, hh, e, k, w0, hs, hk, rfl⟩ | ⟨r, hh, e, k, w0, hs, hk, h0', rfl⟩
+    · exact hno g (htp.frames (.hApply r e rest err (.gen g)) (by rw [hs]; simp) g rfl) rfl
+    · have hsh := hinv.shape
+      rcases hs with hs | hs | ⟨p', v, hs⟩
+      · rw [hs] at hsh
+        exact hno p ((htp.tasks r t hsh.1.2).2.2 p hp) rfl
+      · rw [hs] at hsh
+        exact hno p ((htp.tasks r t hsh.1.2).2.2 p hp) rfl
+      · have := htp.frames (.ptParent r t p' v) (by rw [hs]; simp)
+        exact hno p (this.2.2 p hp) rfl
+    · have := htp.frames (.ptParent r t p false) (by rw [hs]; simp)
+      exact hno p this.2.1 rfl
+    · cases hpar
+    · cases hpar
+    · cases hpar
+  · exact p2 w b hg hpar
+
 /-- non-vacuity: sessions guarded by the two restrictions exist from `exampleInit` -/
 example : T46ReachM2 exampleInit (startOf (envChange exampleInit 0 []) (.tick 0)) := T46ReachM2.init 0 [] (.tick 0) trivial
 example : T46Init exampleInit := by
